@@ -51,6 +51,8 @@ structure Codec (K : Type) where
   conj : K → K
   /-- is `a / k` inside the exact-arithmetic domain of the check? -/
   divOk : K → K → Bool
+  /-- `<` for the ordered scalar types (int, double), `none` for complex numbers and the prime field -/
+  lt : Option (K → K → Bool)
 
 def small (x : Int) : Bool := -100000 ≤ x && x ≤ 100000
 
@@ -60,6 +62,7 @@ def intCodec : Codec Int where
   enc := fun x => [x]
   conj := id
   divOk := fun a k => k != 0 && a % k == 0
+  lt := some fun a b => decide (a < b)
 
 /-- see `smithExact` in the harness -/
 def smithExact (c d : Int) : Bool :=
@@ -77,6 +80,7 @@ def gintCodec : Codec GInt where
   divOk := fun a k =>
     let den := k.re * k.re + k.im * k.im
     den != 0 && smithExact k.re k.im && (a.re * k.re + a.im * k.im) % den == 0 && (a.im * k.re - a.re * k.im) % den == 0
+  lt := none
 
 def fpCodec : Codec Fp where
   w := 1
@@ -84,6 +88,7 @@ def fpCodec : Codec Fp where
   enc := fun x => [x.v]
   conj := id
   divOk := fun _ k => k.v != 0
+  lt := none
 
 /-! ### parsing -/
 
@@ -103,6 +108,7 @@ structure PMat (K : Type) where
   base : String
   tv : Bool
   tc : Bool
+  t2 : Bool
   r : Nat
   c : Nat
   e : List K
@@ -116,10 +122,11 @@ def maxDim (base : String) : Nat := if base == "DM" then 6 else if base == "SV" 
 
 def parseMat {K} (F : Codec K) : List String → Option (PMat K × List String)
   | rep :: rs :: cs :: l :: rest => do
-    let (base, tv, tc) :=
-      if rep.length == 4 && rep.startsWith "TV" then ((rep.drop 2).toString, true, false)
-      else if rep.length == 4 && rep.startsWith "TC" then ((rep.drop 2).toString, false, true)
-      else (rep, false, false)
+    let (base, tv, tc, t2) :=
+      if rep.length == 4 && rep.startsWith "TV" then ((rep.drop 2).toString, true, false, false)
+      else if rep.length == 4 && rep.startsWith "TC" then ((rep.drop 2).toString, false, true, false)
+      else if rep.length == 4 && rep.startsWith "T2" then ((rep.drop 2).toString, false, false, true)
+      else (rep, false, false, false)
     if !(base == "FM" || base == "DM" || base == "DG" || base == "SV") then none
     if tc && base == "SV" then none
     let r ← rs.toNat?
@@ -129,7 +136,7 @@ def parseMat {K} (F : Codec K) : List String → Option (PMat K × List String)
     if base == "DG" && r != c then none
     let e ← decList F l
     if e.length != (if base == "DG" then r else r * c) then none
-    some (⟨rep, base, tv, tc, r, c, e⟩, rest)
+    some (⟨rep, base, tv, tc, t2, r, c, e⟩, rest)
   | _ => none
 
 def parseVec {K} (F : Codec K) : List String → Option (PVec K × List String)
@@ -169,9 +176,11 @@ def storedRep (m : PMat K) : Rep K :=
   else if m.base == "SV" then .scalar (m.e.getD 0 0)
   else .full (storedFull m)
 
-/-- the operand as it is meant: plain, transposed copy (`transposed()`), or transposed view -/
+/-- the operand as it is meant: plain, transposed copy (`transposed()`), transposed view, or the transposed view of
+a transposed view -/
 def operandRep (m : PMat K) : Rep K :=
-  if m.tv then .transposed (storedRep m)
+  if m.t2 then .transposed (.transposed (storedRep m))
+  else if m.tv then .transposed (storedRep m)
   else if m.tc then
     (if m.base == "DG" then storedRep m          -- DiagonalMatrix::transposed returns *this
      else .full (transposed (storedFull m)))
@@ -195,7 +204,9 @@ def isTransposedKernel : KName → Bool
   | _ => true
 
 /-- is the operand's C++ type `FieldMatrix` (plain or transposed copy of one)? -/
-def isFM (m : PMat K) : Bool := m.base == "FM" && !m.tv
+def isFM (m : PMat K) : Bool := m.base == "FM" && !m.tv && !m.t2
+def isView (m : PMat K) : Bool := m.tv || m.t2
+def staticBase (m : PMat K) : Bool := m.base == "FM" || m.base == "DG" || m.base == "SV"
 def is11 (m : PMat K) : Bool := m.r == 1 && m.c == 1
 
 def handleKernel (F : Codec K) (k : KName) (toks : List String) : String :=
@@ -229,7 +240,17 @@ def handleMul (F : Codec K) (toks : List String) : String :=
     let ra := operandRep A
     let rb := operandRep B
     if ra.cols != rb.rows then "bad-op" else
-    if A.tv then "bad-op"
+    if isView A && isView B then "bad-op"
+    else if isView A then
+      -- fmatrix.hh OtherMatrix * FieldMatrix with a (static-size) transposed view as OtherMatrix
+      if A.tv && staticBase A && isFM B && !B.tc then
+        showMat F (mulOtherFm F.conj (if rb.rows == 1 && rb.cols == 1 then Gen.otherMulFm11 else Gen.otherMulFm) ra rb.toFull)
+      else "bad-op"
+    else if B.t2 then
+      -- fmatrix.hh FieldMatrix * OtherMatrix with the view of a view (static size) as OtherMatrix
+      if isFM A && !A.tc && (B.base == "DG" || B.base == "SV") then
+        showMat F (mulFmOther F.conj (if ra.rows == 1 && ra.cols == 1 then Gen.fm11MulOther else Gen.fmMulOther) ra.toFull rb)
+      else "bad-op"
     else if B.tv then
       -- B is a TransposedMatrixWrapper around storedRep B
       if isFM A && B.base != "DM" then
@@ -256,7 +277,7 @@ def handleMulInPlace (F : Codec K) (op : String) (toks : List String) : String :
   match parseMat F t1 with
   | none => "bad-op"
   | some (M, t2) =>
-    if !t2.isEmpty || A.tv || A.tc || M.tv || M.tc || A.base == "DG" || M.base == "DG" then "bad-op" else
+    if !t2.isEmpty || A.tv || A.tc || A.t2 || M.tv || M.tc || M.t2 || A.base == "DG" || M.base == "DG" then "bad-op" else
     let a := storedFull A
     let m := storedFull M
     let fm11 := A.base == "FM" && is11 A
@@ -281,6 +302,7 @@ def handleUnaryMat (F : Codec K) (op : String) (toks : List String) : String :=
   | none => "bad-op"
   | some (A, t1) =>
     if !t1.isEmpty then "bad-op" else
+    if A.t2 then "bad-op" else
     match op with
     | "transposed" =>
       let rep := operandRep A
@@ -309,12 +331,12 @@ def handleMatVS (F : Codec K) (op : String) (toks : List String) : String :=
   match bres with
   | none => "bad-op"
   | some (B?, t3) =>
-    if !t3.isEmpty || A.tv || A.tc then "bad-op" else
+    if !t3.isEmpty || A.tv || A.tc || A.t2 then "bad-op" else
     let a := storedFull A
     let diag := A.base == "DG"
     match B? with
     | some B =>
-      if B.tv || B.tc || A.r != B.r || A.c != B.c || (diag != (B.base == "DG")) then "bad-op" else
+      if B.tv || B.tc || B.t2 || A.r != B.r || A.c != B.c || (diag != (B.base == "DG")) then "bad-op" else
       let b := storedFull B
       -- DiagonalMatrix works on its diagonal vector
       let dres (f : (Nat → K) → (Nat → K) → Nat → K) : String :=
@@ -343,12 +365,23 @@ def handleMatVS (F : Codec K) (op : String) (toks : List String) : String :=
       | "mneg" => if diag || A.base == "SV" then "bad-op" else showMat F (mneg a)
       | _ => "bad-op"
 
+def ordVV : List String := ["v1_lt_v1", "v1_le_v1", "v1_gt_v1", "v1_ge_v1"]
+def ordVS : List String := ["v1_lt_s", "v1_le_s", "v1_gt_s", "v1_ge_s", "s_lt_v1", "s_le_v1", "s_gt_v1", "s_ge_v1"]
 def twoVecOps : List String :=
-  ["vadd", "vsub", "vplus", "vminus", "vaxpy", "veq", "vne", "vdotT", "vdot", "fdot", "fdotT"]
+  ["vadd", "vsub", "vplus", "vminus", "vaxpy", "veq", "vne", "vdotT", "vdot", "fdot", "fdotT"] ++ ordVV
+
+/-- the four order relations in terms of `<` -/
+def ordRel (lt : K → K → Bool) (rel : String) (a b : K) : Option Bool :=
+  match rel with
+  | "lt" => some (lt a b)
+  | "le" => some (!lt b a)
+  | "gt" => some (lt b a)
+  | "ge" => some (!lt a b)
+  | _ => none
 
 def handleVec (F : Codec K) (op : String) (toks : List String) : String :=
   let two := twoVecOps.contains op
-  let sc := (!two && op != "vneg") || op == "vaxpy"
+  let sc := (!two && op != "vneg" && op != "v1_conv") || op == "vaxpy"
   match parseVec F toks with
   | none => "bad-op"
   | some (a, t1) =>
@@ -384,7 +417,15 @@ def handleVec (F : Codec K) (op : String) (toks : List String) : String :=
       | "vne" => showB (!veq n x y)
       | "vdotT" | "fdotT" => encList F [vdotT n x y]
       | "vdot" | "fdot" => encList F [vdot F.conj n x y]
-      | _ => "bad-op"
+      | _ =>
+        if ordVV.contains op && a.kind == "FV" && b.kind == "FV" && n == 1 then
+          match F.lt with
+          | some lt =>
+            match ordRel lt ((op.drop 3).take 2).toString (x 0) (y 0) with
+            | some r => showB r
+            | none => "bad-op"
+          | none => "bad-op"
+        else "bad-op"
     | none =>
       if a.kind == "SC" then "bad-op" else
       let fv := a.kind == "FV"
@@ -409,7 +450,81 @@ def handleVec (F : Codec K) (op : String) (toks : List String) : String :=
         if !(a.e.all fun v => F.divOk s v) then "inexact" else if one then out (fun i => s / x i) else "bad-op"
       | "v1_eq_s" => if one then showB (veq 1 x (fun _ => s)) else "bad-op"
       | "s_ne_v1" => if one then showB (!veq 1 (fun _ => s) x) else "bad-op"
+      | "v1_ne_s" => if one then showB (!veq 1 x (fun _ => s)) else "bad-op"
+      | "s_eq_v1" => if one then showB (veq 1 (fun _ => s) x) else "bad-op"
+      | "v1_conv" => if one then encList F [x 0] else "bad-op"
+      | _ =>
+        if ordVS.contains op && one then
+          match F.lt with
+          | some lt =>
+            let sFirst := op.startsWith "s_"
+            let rel := if sFirst then ((op.drop 2).take 2).toString else ((op.drop 3).take 2).toString
+            match ordRel lt rel (if sFirst then s else x 0) (if sFirst then x 0 else s) with
+            | some r => showB r
+            | none => "bad-op"
+          | none => "bad-op"
+        else "bad-op"
+
+def m11Ops : List String := ["m11_plus_s", "s_plus_m11", "m11_minus_s", "s_minus_m11", "m11_adds", "m11_subs", "m11_conv"]
+
+/-- FieldMatrix<K,1,1> mixed with plain scalars, and its conversion to the scalar -/
+def handleM11 (F : Codec K) (op : String) (toks : List String) : String :=
+  match parseMat F toks with
+  | none => "bad-op"
+  | some (A, t1) =>
+    if A.rep != "FM" || !is11 A then "bad-op" else
+    let a := (storedFull A).e 0 0
+    if op == "m11_conv" then (if t1.isEmpty then encList F [a] else "bad-op") else
+    match parseScalar F t1 with
+    | none => "bad-op"
+    | some (s, t2) =>
+      if !t2.isEmpty then "bad-op" else
+      let out (v : K) : String := showMat F ⟨1, 1, fun _ _ => v⟩
+      match op with
+      | "m11_plus_s" | "m11_adds" => out (a + s)
+      | "s_plus_m11" => out (s + a)
+      | "m11_minus_s" | "m11_subs" => out (a - s)
+      | "s_minus_m11" => out (s - a)
       | _ => "bad-op"
+
+def multOps : List String := ["multassign", "multassignT", "fmult", "fmultT"]
+
+/-- DenseMatrixHelp::multAssign, FMatrixHelp::multAssignTransposed / mult / multTransposed -/
+def handleMult (F : Codec K) (op : String) (toks : List String) : String :=
+  match parseMat F toks with
+  | none => "bad-op"
+  | some (A, t1) =>
+  match parseVec F t1 with
+  | none => "bad-op"
+  | some (x, t2) =>
+    if !t2.isEmpty || A.tv || A.tc || A.t2 || !(A.base == "FM" || A.base == "DM") then "bad-op" else
+    let tr := op == "multassignT" || op == "fmultT"
+    if x.n != (if tr then A.r else A.c) then "bad-op" else
+    if A.base == "DM" && (op != "multassign" || x.kind != "DV") then "bad-op" else
+    if A.base == "FM" && x.kind != "FV" then "bad-op" else
+    let a := storedFull A
+    if tr then encList F (listOf A.c (multAssignT a (vecFn x.e)))
+    else encList F (listOf A.r (multAssign a (vecFn x.e)))
+
+/-- construction / assignment of a FieldMatrix or DynamicMatrix from another representation; of a vector from another -/
+def handleAssign (F : Codec K) (op : String) (toks : List String) : String :=
+  match toks with
+  | tgt :: rest =>
+    if op == "vassign" then
+      match parseVec F rest with
+      | none => "bad-op"
+      | some (x, t) =>
+        if !t.isEmpty || x.kind == "SC" || !(tgt == "FV" || tgt == "DV") then "bad-op"
+        else if tgt == "FV" && x.n > 4 then "bad-op"
+        else encList F (listOf x.n (vecFn x.e))
+    else
+      match parseMat F rest with
+      | none => "bad-op"
+      | some (A, t) =>
+        if !t.isEmpty || A.tv || A.tc || A.t2 || !(tgt == "FM" || tgt == "DM") then "bad-op"
+        else if tgt == "FM" && (A.r > 4 || A.c > 4 || (A.base == "DM" && A.r != A.c)) then "bad-op"
+        else showMat F (assignFrom (storedRep A))
+  | _ => "bad-op"
 
 def matVSOps : List String :=
   ["madd", "msub", "mplus", "mminus", "mscale", "mdiv", "mtimes", "mltimes", "mover", "maxpy", "mneg", "meq", "mne"]
@@ -423,6 +538,9 @@ def handleK (F : Codec K) (op : String) (toks : List String) : String :=
       handleMulInPlace F op toks
     else if op == "transposed" || op == "multtm" then handleUnaryMat F op toks
     else if matVSOps.contains op then handleMatVS F op toks
+    else if m11Ops.contains op then handleM11 F op toks
+    else if multOps.contains op then handleMult F op toks
+    else if op == "assign" || op == "vassign" then handleAssign F op toks
     else handleVec F op toks
 
 end
